@@ -667,8 +667,21 @@ func (c *Fn) lt(i ssa.Value, L string, strict bool, at *ssa.BasicBlock, d int) b
 			}
 		}
 		return true
+	case *ssa.Const:
+		// a negative constant is below every length
+		if k, ok := ssau.ConstInt(v); ok && k < 0 && strings.HasPrefix(L, "len(") {
+			return true
+		}
 	case *ssa.Call:
 		n := ssau.CallName(v)
+		// slices.Index / IndexFunc / BinarySearch...: -1 or a position in the slice
+		if strings.HasPrefix(n, "slices.Index") && len(v.Common().Args) >= 1 {
+			for _, le := range c.LenExprs(v.Common().Args[0], 0) {
+				if le == L {
+					return true
+				}
+			}
+		}
 		if n == "builtin.min" || strings.HasSuffix(n, "/internal/utils.Min") {
 			for _, a := range v.Common().Args {
 				if c.lt(a, L, strict, at, d+1) {
